@@ -91,11 +91,21 @@ class ChunkDomain(DefaultDomain):
         return st
 
     def load_attr(self, chain, st, fr):
+        if chain == ["self", "current_tags"]:
+            return ("current-tags",)
+        if len(chain) == 2 and chain[1] == "content_type" and st.get(fr.local(chain[0]), None) == ("content",):
+            return ("ctype",)
         return None
 
     def call(self, interp, call, st, fr):
         d = dotted(call.func)
         argexprs = list(call.args) + [k.value for k in call.keywords]
+        if d == "self._now" and not call.args:
+            return [val(("now",), st)]
+        if d == "repr" and len(call.args) == 1:
+            return [r if r.kind == "exc" else val(("repr", r.value), r.state) for r in interp.eval(call.args[0], st, fr)]
+        if isinstance(call.func, ast.Attribute) and call.func.attr == "id" and not call.args and st.get(fr.local(dotted(call.func.value) or "?"), None) == ("the-test",):
+            return [val(("test-id",), st)]
         if d and d.endswith(".items") and not call.args:
             out = []
             for r in interp.eval(call.func.value, st, fr):
@@ -116,6 +126,22 @@ class ChunkDomain(DefaultDomain):
                 s = r.state
                 is_file = "file_name" in kws
                 is_final = "test_status" in kws
+                if call.args:
+                    s = self._problem(s, "an event is sent with positional arguments")
+                if kws.get("test_id") != ("test-id",):
+                    s = self._problem(s, "an event does not carry test.id() as test_id")
+                if kws.get("timestamp") != ("now",):
+                    s = self._problem(s, "an event does not carry the timestamp taken from self._now() for this outcome")
+                if is_file and s.get("ev.in_detail", 0) == 1:
+                    if kws.get("file_name") != ("name",):
+                        s = self._problem(s, "a file event of a detail does not carry the detail's own name")
+                    if kws.get("mime_type") != ("repr", ("ctype",)):
+                        s = self._problem(s, "the content type of a detail (repr(content.content_type)) is not sent with its chunks")
+                if is_final:
+                    if kws.get("test_status") != ("param-status",):
+                        s = self._problem(s, "the final event does not carry the outcome's status")
+                    if kws.get("test_tags") != ("current-tags",):
+                        s = self._problem(s, "the final event does not carry the current tags")
                 if is_file:
                     fb = kws.get("file_bytes", NONE)
                     if s.get("ev.final", 0) > 0:
@@ -146,6 +172,9 @@ class ChunkDomain(DefaultDomain):
                 out.append(val(NONE, s))
                 out.append(exc(("target raised",), s))
             return out
+        hit = interp.auto_inline(call, st, fr, getattr(self, "classes", None))
+        if hit is not None:
+            return hit
         out = []
         for r in interp.eval_list([a.value if isinstance(a, ast.Starred) else a for a in argexprs], st, fr):
             out.append(r if r.kind == "exc" else val(TOP, r.state))
@@ -205,9 +234,16 @@ def run(ctx):
     # ------------------------------------------------------------------ chunk obligations
     conv = own_method(ctx, REAL, "ExtendedToStreamDecorator", "_convert")
     dom = ChunkDomain()
-    it = Interp(dom, max_depth=3)
+    dom.classes = classes
+    it = Interp(dom, max_depth=5)
     st0 = State([("ev.eof", 0), ("ev.final", 0), ("ev.in_detail", 0), ("ev.chunk_n", 0), ("ev.last_was_eof", 0)])
-    res = it.analyze(conv, {}, st0, receiver=classes.get(REAL, "ExtendedToStreamDecorator"), name="_convert")
+    cparams = [a.arg for a in conv.args.args][1:]
+    cargs = {}
+    if "test" in cparams:
+        cargs["test"] = ("the-test",)
+    if "status" in cparams:
+        cargs["status"] = ("param-status",)
+    res = it.analyze(conv, cargs, st0, receiver=classes.get(REAL, "ExtendedToStreamDecorator"), name="_convert")
     ctx.stats["states"] += it.steps
     ctx.analysed(conv)
     normal = [r for r in res if r.kind == "val"]
@@ -253,31 +289,11 @@ def run(ctx):
         ctx.check("R-CHUNK-OBLIGATIONS", f"{meth} hands test, err and details to _convert", call, ok, f"{norm(call)[:70]} drops an argument", construct=f"{REAL}:ExtendedToStreamDecorator.{meth}::args")
 
     # ------------------------------------------------------------------ event fields
-    for c in sends:
-        need = {"test_id", "timestamp"}
-        if has_kw(c, "file_name"):
-            need |= {"file_name", "file_bytes", "mime_type"}
-        if has_kw(c, "test_status"):
-            need |= {"test_tags"}
-        have = {k.arg for k in c.keywords}
-        ctx.check("R-EVENT-FIELDS", f"_convert: status({', '.join(sorted(have))})", c, need <= have and not c.args,
-                  f"event lacks {sorted(need - have)}", construct=f"{REAL}:ExtendedToStreamDecorator._convert::fields@{'final' if has_kw(c, 'test_status') else str_const(kw_value(c, 'file_name')) or ('eof' if has_kw(c, 'eof') else 'chunk')}")
-    ids = {dotted(kw_value(c, "test_id")) for c in sends}
-    tss = {dotted(kw_value(c, "timestamp")) for c in sends}
-    ok = len(ids) == 1 and len(tss) == 1
-    src_id = [n for n in walk_shallow(conv, include_self=False) if isinstance(n, ast.Assign) and dotted(n.targets[0]) in ids and norm(n.value) == "test.id()"]
-    src_ts = [n for n in walk_shallow(conv, include_self=False) if isinstance(n, ast.Assign) and dotted(n.targets[0]) in tss and norm(n.value) == "self._now()"]
-    ctx.check("R-EVENT-FIELDS", "all events of one test share test.id() and one timestamp from self._now()", conv, ok and len(src_id) == 1 and len(src_ts) == 1,
-              "events of one outcome use different ids / timestamps", construct=f"{REAL}:ExtendedToStreamDecorator._convert::id-and-time")
-    mt = [n for n in walk_shallow(conv, include_self=False) if isinstance(n, ast.Assign) and dotted(n.targets[0]) == "mime_type"]
-    ok = len(mt) == 1 and norm(mt[0].value) == "repr(content.content_type)" and all(dotted(kw_value(c, "mime_type")) == "mime_type" for c in file_sends if c not in reason_sends)
-    ctx.check("R-EVENT-FIELDS", "file events carry repr(content.content_type) as mime type", conv, ok, "the content type of a detail is not sent with its chunks",
-              construct=f"{REAL}:ExtendedToStreamDecorator._convert::mime")
-    names = {dotted(kw_value(c, "file_name")) for c in file_sends if c not in reason_sends}
-    ctx.check("R-EVENT-FIELDS", "file events carry the detail's own name", conv, names == {"name"}, f"file_name is {names}", construct=f"{REAL}:ExtendedToStreamDecorator._convert::name")
-    final = final_sends[0] if final_sends else None
-    ok = final is not None and dotted(kw_value(final, "test_status")) == "status" and dotted(kw_value(final, "test_tags")) == "self.current_tags"
-    ctx.check("R-EVENT-FIELDS", "final event carries the outcome's status and the current tags", conv, ok, "final event fields wrong", construct=f"{REAL}:ExtendedToStreamDecorator._convert::final-fields")
+    # (ids, timestamps, names, mime types and the final event's status/tags are compared as values on the
+    #  abstract run above: a missing or wrong field is one of the obligations' problems)
+    field_problems = [p_ for p_ in problems if "event" in p_ and ("carry" in p_ or "positional" in p_ or "content type" in p_)]
+    ctx.check("R-EVENT-FIELDS", "every event carries test.id(), one timestamp; file events the detail's name and repr(content_type); the final event status and current tags",
+              conv, not field_problems and len(normal) >= 1, "; ".join(field_problems), construct=f"{REAL}:ExtendedToStreamDecorator._convert::field-values")
     tb = [n for n in walk_shallow(conv, include_self=False) if isinstance(n, ast.Assign) and isinstance(n.targets[0], ast.Subscript) and str_const(n.targets[0].slice) == "traceback"]
     ok = len(tb) == 1 and "TracebackContent(err, test)" in norm(tb[0].value) and any(isinstance(p, ast.If) and norm(p.test) == "err is not None" for p in _ancestors(tb[0], conv))
     ctx.check("R-EVENT-FIELDS", "an exc_info outcome is sent as a 'traceback' detail", conv, ok, "err is not converted into a traceback detail", construct=f"{REAL}:ExtendedToStreamDecorator._convert::traceback")
